@@ -451,6 +451,25 @@ def make_case(seed, i, force_end=None):
         fl = M.TARGET_FLAGS.get(t, [])
         if fl:
             config_args = ["--config", "%s.%s=%s" % (t, ca.choice(fl), ca.choice(["true", "false"]))]
+    # the directory above everything is renamed while the tool watches (the project folder gets another name): a process is in
+    # its working directory by identity, relative paths keep their meaning, and the saves that follow must still be noticed
+    final_cwd = "/w/pkg"
+    mv = rng.fork("moved")
+    real_ = [k_ for k_, e_ in enumerate(edits) if e_["kind"] != "pause"]
+    if real_ and not links and not invalid_from_start and unfinished is None and not config_args_needed_abs(edits) and mv.chance(0.08):
+        at_ = mv.choice(real_)
+        def mvp(q_):
+            return "/w2" + q_[2:] if isinstance(q_, str) and (q_ == "/w" or q_.startswith("/w/")) else q_
+        later_ = []
+        for e_ in edits[at_:]:
+            e2_ = dict(e_)
+            for key_ in ("path", "to", "when_read"):
+                if key_ in e2_:
+                    e2_[key_] = mvp(e2_[key_])
+            later_.append(e2_)
+        edits = edits[:at_] + [{"kind": "rename", "path": "/w", "to": "/w2"}] + later_
+        final_cwd = "/w2/pkg"
+        log.append("the directory above the package and everything it refers to renamed before edit %d" % at_)
     if invalid_from_start:
         # the file that keeps the package invalid for good is never saved in place, whichever kind of edit picked it: between
         # truncation and write it is empty, an empty model file is a valid one, and a regeneration that reads it right then
@@ -458,11 +477,16 @@ def make_case(seed, i, force_end=None):
         for e_ in edits:
             if e_.get("kind") in ("write", "backup") and e_.get("path") == invalid_from_start:
                 e_["kind"] = "atomic"
-    doc = {"files": files0, "cwd": "/w/pkg", "edits": edits, "sched": sched, "faults": faults, "config_args": config_args, "links": links,
+    doc = {"files": files0, "cwd": "/w/pkg", "edits": edits, "sched": sched, "faults": faults, "config_args": config_args, "links": links, "final_cwd": final_cwd,
            "mapseed": rng.next() % (1 << 31) + 1, "seed": seed,
            "case": {"i": i, "targets": targets, "imports": len(pkg.imports), "versions": len(pkg.versions), "edit_log": log,
                     "n_edit_ops": len(edits), "ends_invalid": end_invalid, "unfinished_file": unfinished, "invalid_from_start": bool(invalid_from_start), "model_file_in_subdirectory": subdir_file}}
     return doc
+
+
+def config_args_needed_abs(edits):
+    """(reserved: edits that carry absolute paths in file *contents* would not survive a rename of /w; none do)"""
+    return False
 
 
 def final_inputs(doc):
@@ -499,6 +523,11 @@ def execute(sim, doc):
         # faults stop once the final edit has been made, also after minimisation (pauses after it change nothing on disk:
         # a fault that is still active then would hit the very regeneration that has to converge)
         f["until"] = real[-1] + 1
+    mv_ = [k for k, e in enumerate(doc["edits"]) if e["kind"] == "rename" and e.get("path") == "/w"]
+    if mv_ and not any(e["kind"] in ("write", "atomic", "backup") for e in doc["edits"][mv_[0] + 1:]):
+        # moving the directory above everything produces no event in any directory that can be watched: only a save that
+        # follows it can be expected to bring the output up to date (a minimised case that lost that save decides nothing)
+        return None, {"runs": 0, "status": "vacuous"}
     spec.update(doc["sched"])
     st = {"runs": 1}
     res = sim.run(spec, mapseed=doc["mapseed"])
@@ -531,7 +560,7 @@ def execute(sim, doc):
     # O1: one-shot on the final disk, fresh process, must change nothing
     tree = res["tree"]
     links = {p: e["t"] for p, e in tree.items() if e["k"] == "l"}
-    one = sim.run(tw.oneshot_spec(tw.tree_files(tree), doc["cwd"], args=tuple(["generate"] + list(doc.get("config_args") or [])), links=links, dirs=tw.tree_dirs(tree)), mapseed=doc["mapseed"])
+    one = sim.run(tw.oneshot_spec(tw.tree_files(tree), doc.get("final_cwd") or doc["cwd"], args=tuple(["generate"] + list(doc.get("config_args") or [])), links=links, dirs=tw.tree_dirs(tree)), mapseed=doc["mapseed"])
     st["runs"] += 1
     if one.get("status") == "process_died":
         st["final_invalid"] = True
@@ -545,7 +574,7 @@ def execute(sim, doc):
         st["diff_paths"] = [q for _, q in d[:200]]
         return {"class": "not_converged", "first": "%s %s" % (kind, p.replace("/w/", "")), "n_diffs": len(d)}, st
     # O2: regenerations born after the last edit only write what a clean one-shot writes
-    clean = sim.run(tw.oneshot_spec(final_inputs(doc), doc["cwd"], args=tuple(["generate"] + list(doc.get("config_args") or [])), **({"links": doc["links"]} if doc.get("links") else {})), mapseed=doc["mapseed"])
+    clean = sim.run(tw.oneshot_spec(final_inputs(doc), doc.get("final_cwd") or doc["cwd"], args=tuple(["generate"] + list(doc.get("config_args") or [])), **({"links": doc["links"]} if doc.get("links") else {})), mapseed=doc["mapseed"])
     st["runs"] += 1
     if clean.get("status") == "returned" and clean["exit_code"] == 0:
         # O4: every file that a generation of the final package into empty output directories writes is on disk with exactly
